@@ -204,7 +204,7 @@ PROPS = {
                 "while a reader is open at most D pages per transaction; after it closes hwm(c+k) <= hwm(c+2)+D. "
                 "non-trivial = run of >= 40 transactions in which pages below the previous high-water mark were re-allocated.",
         "run": generic(sanitizers=('asan',), thorough_profiles=()),
-        "floors": {"any": {"commits_that_freed_pages_without_writing_a_tree_page": 2, "transactions": 1000, "pages_allocated_below_previous_hwm(reuse)": 1000, "runs_with_periodic_reopen": 5, "writer_begins_whose_free_set_was_compared_with_the_unreachable_pages": 2000, "runs_with_a_multi_page_free_list": 4, "short_readers_opened_and_closed_on_8_threads_before_a_run": 1000, "runs_with_reader_held": 2, "runs_with_reader_hand_over": 2}},
+        "floors": {"any": {"runs_of_more_than_65536_transactions_on_one_file": 1, "commits_that_freed_pages_without_writing_a_tree_page": 2, "transactions": 1000, "pages_allocated_below_previous_hwm(reuse)": 1000, "runs_with_periodic_reopen": 5, "writer_begins_whose_free_set_was_compared_with_the_unreachable_pages": 2000, "runs_with_a_multi_page_free_list": 4, "short_readers_opened_and_closed_on_8_threads_before_a_run": 1000, "runs_with_reader_held": 2, "runs_with_reader_hand_over": 2}},
         "assumptions": ["bounds are sufficient conditions for a plateau, not the tightest possible"],
     },
     "C06": {
